@@ -8,6 +8,7 @@ import (
 	"math/big"
 	mrand "math/rand"
 	"os"
+	"runtime"
 	"strings"
 	"testing"
 	"testing/synctest"
@@ -335,6 +336,9 @@ func ExecLogs(t *testing.T, pa any, col *kernel.Collector) []kernel.Violation {
 }
 
 func execLogs(p *LogPlan, col *kernel.Collector) []kernel.Violation {
+	// matcher, scheduler and indexer goroutines race between the gates (a cancellation against a
+	// completing query): one P, so that the interleaving is the runtime's run queue
+	defer runtime.GOMAXPROCS(runtime.GOMAXPROCS(1))
 	chainsim.ResetCrit()
 	mrand.Seed(int64(HashLogPlan(p) & 0x7fffffffffffffff))
 	u, err := chainsim.Build(&p.Recipe)
